@@ -435,6 +435,41 @@ Proof.
   exact (g_uniq_is_values_at_first PrimFloat.eqb _ eqlaws_f64 xs Hok).
 Qed.
 
+(* (27) the inputs the quantifier excludes, as the code treats them (model `vcut_call`, compared with the real code on
+        Option<i32> edge vectors holding None at every position): the label-count guard comes FIRST - a count that does
+        not match is Err, never a panic, whatever the edges hold; with a matching count a null edge of an Option<_> edge
+        vector panics at call time (Option::unwrap on None); without null edges the call is `vcut` on the unwrapped edges *)
+Theorem C14_cut_call_guard_first_then_null_edges :
+  forall (A L : Type) (ltb leb : A -> A -> bool) (tmin tmax : A) (right add_bounds : bool)
+         (edges : list (option A)) (labels : list L) (xs : list (option A)),
+    (count_ok add_bounds edges labels = false ->
+       vcut_call ltb leb tmin tmax right add_bounds edges labels xs = Ok None) /\
+    (count_ok add_bounds edges labels = true -> In None edges ->
+       vcut_call ltb leb tmin tmax right add_bounds edges labels xs = Panic UnwrapNone) /\
+    (forall es, edges = map Some es ->
+       vcut_call ltb leb tmin tmax right add_bounds edges labels xs
+       = Ok (vcut ltb leb tmin tmax right add_bounds es labels xs)).
+Proof. intros; apply vcut_call_spec. Qed.
+
+(* (28) a label type WITHOUT a null (i32 labels): the iteration unwinds (T2::none() panics, DESIGN 5.4) exactly when the
+        input holds a null value; with a nullable label type nothing ever unwinds *)
+Theorem C14_cut_label_type_without_null :
+  forall (A L : Type) (ltb leb : A -> A -> bool) (tmin tmax : A) (nullable right add_bounds : bool)
+         (es : list A) (labels : list L) (xs : list (option A)),
+    collect_items nullable (map (cut1 ltb leb tmin tmax right add_bounds es labels) xs) =
+    if negb nullable && existsb (fun x => match x with None => true | Some _ => false end) xs
+    then Panic OtherPanic else Ok (map (cut1 ltb leb tmin tmax right add_bounds es labels) xs).
+Proof. intros; apply collect_items_spec. Qed.
+
+Example C14_ex_cut_call :
+  vcut_call Z.ltb Z.leb (-8) 7 true true [Some 2; None] [10; 11] [Some 1] = Ok None
+  /\ vcut_call Z.ltb Z.leb (-8) 7 true true [Some 2; None] [10; 11; 12] [Some 1] = Panic UnwrapNone
+  /\ vcut_call Z.ltb Z.leb (-8) 7 true true [Some 2; Some 5] [10; 11; 12] [Some 1; None]
+     = Ok (Some [Lab 10; NullLab])
+  /\ collect_items false [Lab 10; @NullLab Z] = Panic OtherPanic
+  /\ collect_items true [Lab 10; @NullLab Z] = Ok [Lab 10; NullLab].
+Proof. vm_compute. repeat split. Qed.
+
 (* ---- non-vacuity of the audit theorems -------------------------------------------------------------- *)
 
 (* premises of (18)/(21) at binary64, with a value on an edge, -0.0 against the edge 0.0, and +-inf under open bounds *)
@@ -518,3 +553,5 @@ Print Assumptions C14_nearest_non_null_cell.
 Print Assumptions C14_unique_values_are_first_cells.
 Print Assumptions C14_unique_positional_integer_any_series.
 Print Assumptions C14_unique_positional_binary64.
+Print Assumptions C14_cut_call_guard_first_then_null_edges.
+Print Assumptions C14_cut_label_type_without_null.
